@@ -2,12 +2,14 @@ package harness
 
 import "fmt"
 
-var txnKeys = []string{"x", "y"}
+var txnKeys = []string{"x", "x@1"} // the second user key contains the version separator
 
 var (
 	cfgTxnMem    = dbCfg{Mem: memHuge, Imm: 1, Block: 4096, L0: 2, Ratio: 2, SL: 2}
 	cfgTxnRotate = dbCfg{Mem: 1, Imm: 1, Block: 1, L0: 1, Ratio: 1, SL: 1}
 	cfgTxnUnbuf  = dbCfg{Mem: 1, Imm: 0, Block: 4096, L0: 1, Ratio: 2, SL: 1}
+	// two frozen memtables can wait for the lazy flusher: reads have to pick the newest among several queued memtables
+	cfgTxnQueue2 = dbCfg{Mem: 1, Imm: 2, Block: 30, L0: 2, Ratio: 2, SL: 1}
 )
 
 // the fine-grained scenario menu shared by C05, C06, C07, C12 and C15
@@ -27,8 +29,8 @@ func txnScenarios() []txnScen {
 		// long-lived readers that read again only when the writers are done and the flusher is idle ("Q" steers, never judges):
 		// the snapshot has to survive rotation, flush, compaction and version discard with the watermark wherever the
 		// other transactions left it; one writer shares the reader's snapshot timestamp
-		{Name: "R5-reader-spans-compactions", Init: init, Threads: [][]txProg{{ro("rx", "Q", "rx", "ry")}, {rw("C", "wx"), rw("C", "wx", "dy"), rw("C", "wx"), rw("C", "wy")}}},
-		{Name: "R6-updating-reader-spans-compactions", Init: init, Threads: [][]txProg{{rw("C", "ry", "Q", "rx", "ry", "wy")}, {rw("C", "rx", "wx"), rw("C", "wx"), ro("rx"), rw("C", "wx"), rw("C", "wx")}}},
+		{Name: "R5-reader-spans-compactions", Init: init, Threads: [][]txProg{{ro("rx", "Q", "rx", "ry")}, {rw("C", "wa", "wx", "wz"), rw("C", "wa", "wx", "dy", "wz"), rw("C", "wa", "wx", "wy", "wz"), rw("C", "wa", "wx", "wz")}}},
+		{Name: "R6-updating-reader-spans-compactions", Init: init, Threads: [][]txProg{{rw("C", "ry", "Q", "rx", "ry", "wy")}, {rw("C", "rx", "wa", "wx", "wz"), rw("C", "wa", "wx", "wy", "wz"), ro("rx"), rw("C", "wa", "wx", "dy", "wz"), rw("C", "wa", "wx", "wz")}}},
 		{Name: "C1-read-absent-delete", Init: []txProg{rw("C", "wy")}, Threads: [][]txProg{{rw("C", "rx", "wy")}, {rw("C", "wx")}, {rw("C", "dx")}}},
 		{Name: "C2-own-write-then-read", Init: init, Threads: [][]txProg{{rw("C", "wx", "rx", "wy")}, {rw("C", "wx")}, {rw("X", "rx", "wx")}}},
 	}
@@ -51,13 +53,13 @@ func hybridScenarios(tier string) []txnScen {
 	for _, a := range menu {
 		for _, b := range menu {
 			out = append(out, txnScen{Name: fmt.Sprintf("H2[%s|%s]+reader", short(a), short(b)), Init: init,
-				Staged: []stagedTxn{{a, true}, {b, true}}, Threads: [][]txProg{{ro("rx", "ry")}}})
+				Staged: []stagedTxn{{Prog: a, Defer: true}, {Prog: b, Defer: true}}, Threads: [][]txProg{{ro("rx", "ry")}}})
 			for _, c := range menu {
 				out = append(out, txnScen{Name: fmt.Sprintf("H3[%s|%s committed|%s]+reader", short(a), short(b), short(c)), Init: init,
-					Staged: []stagedTxn{{a, true}, {b, false}, {c, true}}, Threads: [][]txProg{{ro("rx")}}})
+					Staged: []stagedTxn{{Prog: a, Defer: true}, {Prog: b}, {Prog: c, Defer: true}}, Threads: [][]txProg{{ro("rx")}}})
 				if tier == "thorough" {
 					out = append(out, txnScen{Name: fmt.Sprintf("H3[%s|%s|%s]", short(a), short(b), short(c)), Init: init,
-						Staged: []stagedTxn{{a, true}, {b, true}, {c, true}}})
+						Staged: []stagedTxn{{Prog: a, Defer: true}, {Prog: b, Defer: true}, {Prog: c, Defer: true}}})
 				}
 			}
 		}
@@ -88,6 +90,7 @@ func txnPlans(tier string, prop string) []txnPlan {
 			add(sc.Name, cfgTxnMem, "mem-only", []int{0, 1, 2, 3}, 4)
 			add(sc.Name, cfgTxnRotate, "rotate-always", []int{0, 1, 2}, 8)
 			add(sc.Name, cfgTxnUnbuf, "unbuffered", []int{0, 1, 2}, 4)
+			add(sc.Name, cfgTxnQueue2, "queue=2", []int{0, 1, 2}, 4)
 		}
 	}
 	if quick {
@@ -95,6 +98,9 @@ func txnPlans(tier string, prop string) []txnPlan {
 		add("S1-lost-update", cfgTxnUnbuf, "unbuffered", []int{0, 1}, 1)
 		add("S2-write-skew", cfgTxnUnbuf, "unbuffered", []int{0, 1}, 1)
 		add("R1-long-reader-vs-writers", cfgTxnUnbuf, "unbuffered", []int{0, 1}, 1)
+		for _, n := range []string{"R1-long-reader-vs-writers", "R5-reader-spans-compactions", "R6-updating-reader-spans-compactions", "S5-three-writers", "R4-two-readers-one-finishes"} {
+			add(n, cfgTxnQueue2, "queue=2", []int{0, 1}, 1)
+		}
 	}
 	return plans
 }
